@@ -190,7 +190,7 @@ func TestVerif_C18_SM2Tables(t *testing.T) {
 func TestVerif_C18_GeneratorReproducesTables(t *testing.T) {
 	rec := stats.Get("C18", "sm2-generator")
 	rec.Exhaustive(true)
-	rec.Rule("the repository's table generator sm2/internal/make_table.go is run (go run -tags tablegen) on the tree under test; every hexadecimal literal it emits is compared, in order, with the literals of the shipped sm2_tables.go (complete; distinct by position), and the declared table names must match. If the generator does not build or is absent the sub-check is skipped (recorded), never a violation.")
+	rec.Rule("the repository's table generator sm2/internal/make_table.go is run (go run -tags tablegen) on the tree under test with the default number of processors, with one and with two (a differing output replaces the first); every hexadecimal literal it emits is compared, in order, with the literals of the shipped sm2_tables.go (complete; distinct by position), and the declared table names must match. If the generator does not build or is absent the sub-check is skipped (recorded), never a violation.")
 	t.Cleanup(stats.FlushAll)
 	root := os.Getenv("VERIF_SCRATCH")
 	if e, err := os.ReadFile(filepath.Join(root, "verif_tables_regen.err")); err == nil {
